@@ -11,7 +11,7 @@ func (e *engine) Rule() string {
 	if *prop == "C23" {
 		return "C23: real 3-store / 2-region cluster driven by a random deterministic schedule (campaigns = leader changes, one-store partitions, message drop/dup/out-of-order delivery, heartbeat ticks) with writes, reads and malformed probes sent to leaders, followers and deposed leaders; about 30% of the cases are the directed family 'partition the leader, let the others time out and elect, acknowledge a write on the new leader, read on the deposed leader before/after its own ticks, optionally with an earlier read pending and its heartbeat acknowledgements delayed across the leader change'; 12% elect a follower with a gated (one write per step) state machine over a paged commit backlog and read on it right after the election / mid-backlog; 12% read through the peer API on a replica whose log replication is delayed; every admission decision, id draw, apply, completion and read is replayed through the Lean model; non-trivial = one read served and one write acknowledged, plus either a request refused by the leader check or one of the directed schedules (deposed leader / gated backlog / lagging replica)"
 	}
-	return "C22: (a) random op sequences on the real command pipelines of three stores (ids drawn from the per-store counters so that they collide across stores, entries applied in a common log order on every store, timeouts, rejected duplicate registrations, id 0, entries nobody waits for; inside ValidRun's domain: accepted registrations always use the counter's id, applied entries with a live id are the proposed ones); (b) the real 3-store / 2-region cluster under a random deterministic schedule (leader changes, partitions, drop/dup/reorder) with concurrent proposals on several stores, replayed event by event through the Lean model, plus prefix-agreement / exactly-once oracles; non-trivial = proposals registered on at least two stores, an entry applied on at least two stores, and at least one waiter handed a result"
+	return "C22: (a) random op sequences on the real command pipelines of three stores (ids drawn from the per-store counters so that they collide across stores, entries applied in a common log order on every store, timeouts, rejected duplicate registrations, id 0, entries nobody waits for; inside ValidRun's domain: accepted registrations always use the counter's id, applied entries with a live id are the proposed ones); (b) the real 3-store / 2-region cluster under a random deterministic schedule (leader changes, partitions, drop/dup/reorder, admin entries between the commands, request headers that already name a peer) with concurrent proposals on several stores, and catch-up schedules in which a cut-off replica receives commands and admin entries in one committed batch, replayed event by event through the Lean model, plus prefix-agreement / exactly-once oracles; non-trivial = at least one waiter handed a result, and either proposals registered on at least two stores with an entry applied on at least two stores, or an admin entry among the commands"
 }
 
 func (e *engine) Gen(r *hlib.Rand, tier string) []string {
@@ -26,8 +26,11 @@ func (e *engine) Gen(r *hlib.Rand, tier string) []string {
 		}
 		return genCluster(r, true)
 	}
-	if r.Chance(55) {
+	switch x := r.Intn(100); {
+	case x < 50:
 		return genPipeline(r)
+	case x < 62:
+		return genCatchup(r)
 	}
 	return genCluster(r, false)
 }
@@ -154,7 +157,14 @@ func genCluster(r *hlib.Rand, reads bool) []string {
 		x := r.Intn(100)
 		switch {
 		case x < 30:
-			ops = append(ops, fmt.Sprintf("c.propose %d %d", s, reg))
+			if r.Chance(25) {
+				// the request header already names a peer: none, the own one, another store's,
+				// another region's, an unknown one - validateCommand must overwrite it
+				pid := hlib.Pick(r, []int{0, int(peerID(uint64(reg), s)), int(peerID(uint64(reg), 1+s%nStores)), int(peerID(uint64(1+reg%nRegions), s)), 99})
+				ops = append(ops, fmt.Sprintf("c.proposeP %d %d %d", s, reg, pid))
+			} else {
+				ops = append(ops, fmt.Sprintf("c.propose %d %d", s, reg))
+			}
 		case x < 42 && reads:
 			if s == iso && s == leader[reg] {
 				// a read on a cut-off leader blocks for ReadCommand's fixed 3 s: keep them rare
@@ -191,8 +201,10 @@ func genCluster(r *hlib.Rand, reads bool) []string {
 			ops = append(ops, fmt.Sprintf("c.drop %d", r.Intn(6)))
 		case x < 80:
 			ops = append(ops, fmt.Sprintf("c.dup %d", r.Intn(6)))
-		case x < 86:
+		case x < 83:
 			ops = append(ops, fmt.Sprintf("c.tick %d %d", reg, leader[reg]))
+		case x < 86: // an admin entry between the commands
+			ops = append(ops, fmt.Sprintf("c.admin %d %d", leader[reg], reg))
 		case x < 91:
 			if iso == 0 {
 				iso = 1 + r.Intn(nStores)
@@ -275,6 +287,12 @@ func genDeposed(r *hlib.Rand) []string {
 			ops = append(ops, fmt.Sprintf("c.tick %d %d", reg, l))
 		}
 		ops = append(ops, fmt.Sprintf("c.read %d %d", l, reg))
+	}
+	if r.Chance(30) {
+		// reads racing the stop of the deposed leader's peer: each of them is inside
+		// LinearizableRead's flush when Peer.Close runs; none may be served
+		ops = append(ops, fmt.Sprintf("c.stopread %d %d 20", l, reg), fmt.Sprintf("c.read %d %d", l, reg), "c.verdict")
+		return ops
 	}
 	if r.Chance(60) { // the partition heals: the old leader learns of its successor
 		ops = append(ops, "c.heal")
@@ -360,6 +378,42 @@ func genLagging(r *hlib.Rand) []string {
 	return ops
 }
 
+// genCatchup: committed batches that mix command entries with admin entries.  A follower is cut
+// off while the leader commits commands and admin entries (some of them proposed back to back,
+// so that the connected replicas see mixed batches too); after the partition heals it receives
+// them in one committed batch.  Every replica must apply exactly the command sequence, each
+// command once (oracles agree / once compare the per-replica sequences element by element).
+func genCatchup(r *hlib.Rand) []string {
+	var ops []string
+	reg := 1 + r.Intn(nRegions)
+	l := 1 + r.Intn(nStores)
+	lag := 1 + l%nStores
+	ops = append(ops, fmt.Sprintf("c.campaign %d %d", reg, l), "c.pump")
+	if r.Chance(50) {
+		ops = append(ops, fmt.Sprintf("c.propose %d %d", l, reg), "c.pump")
+	}
+	ops = append(ops, fmt.Sprintf("c.iso %d", lag))
+	n := 2 + r.Intn(6)
+	admins := 0
+	for i := 0; i < n; i++ {
+		if r.Chance(35) || (i == n-2 && admins == 0) {
+			ops = append(ops, fmt.Sprintf("c.admin %d %d", l, reg))
+			admins++
+		} else {
+			ops = append(ops, fmt.Sprintf("c.propose %d %d", l, reg))
+		}
+		if r.Chance(50) {
+			ops = append(ops, "c.pump")
+		}
+	}
+	ops = append(ops, "c.pump", "c.heal")
+	for i := 0; i < 3; i++ {
+		ops = append(ops, fmt.Sprintf("c.tick %d %d", reg, l), "c.pump")
+	}
+	ops = append(ops, fmt.Sprintf("c.propose %d %d", l, reg), "c.pump", "c.verdict")
+	return ops
+}
+
 func (e *engine) Nontrivial(ops, impl, model, spec []string) bool {
 	all := strings.Join(impl, ",")
 	if *prop == "C23" {
@@ -376,10 +430,15 @@ func (e *engine) Nontrivial(ops, impl, model, spec []string) bool {
 	for _, op := range ops {
 		f := strings.Fields(op)
 		switch f[0] {
-		case "p.reg", "c.propose":
+		case "p.reg", "c.propose", "c.proposeP", "c.proposeL":
 			stores[f[1]] = true
 		case "p.apply":
 			applied[f[1]] = true
+		}
+	}
+	for _, op := range ops {
+		if strings.HasPrefix(op, "c.admin") && strings.Contains(all, "res=") {
+			return true // a committed batch mixing commands and admin entries, with an answered proposal
 		}
 	}
 	if len(applied) == 0 && len(stores) >= 2 && strings.Contains(all, "res=") {
